@@ -167,7 +167,11 @@ def rule_r3(prog, res) -> None:
         res.violation("C16.R3", da, subs[0], f"the row index {name} is drawn {len(defs)} times: weights and redshifts may come from different rows", key_extra="index-redrawn")
         return
     d = defs[0]
-    ok = isinstance(d, ast.Call) and unparse(d.func) == "self.rng.integers" and len(d.args) >= 2 and isinstance(d.args[0], ast.Constant) and d.args[0].value == 0 and unparse(d.args[1]) == "self.data_size"
+    ok = isinstance(d, ast.Call) and unparse(d.func) == "self.rng.integers" and (
+        (len(d.args) >= 2 and isinstance(d.args[0], ast.Constant) and d.args[0].value == 0 and unparse(d.args[1]) == "self.data_size")
+        or (len(d.args) == 1 and unparse(d.args[0]) == "self.data_size" and kwarg(d, "high") is None)  # integers(high): low defaults to 0
+        or (not d.args and kwarg(d, "low") is not None and unparse(kwarg(d, "low")) == "0" and kwarg(d, "high") is not None and unparse(kwarg(d, "high")) == "self.data_size")
+    )
     size = kwarg(d, "size") if isinstance(d, ast.Call) else None
     if ok and size is not None and unparse(size) == da.param_names()[1] and kwarg(d, "endpoint") is None:
         res.ok("C16.R3", res.site(da), f"one draw {unparse(d)} indexes both attribute columns")
